@@ -12,6 +12,7 @@ mod c02;
 mod c02_conn;
 mod c03;
 mod c04;
+mod c05;
 mod c06;
 mod c07;
 mod c08;
@@ -64,6 +65,7 @@ fn main() {
         "C02" => c02::run(&args),
         "C03" => c03::run(&args),
         "C04" => c04::run(&args),
+        "C05" => c05::run(&args),
         "C06" => c06::run(&args),
         "C07" => c07::run(&args),
         "C08" => c08::run(&args),
@@ -126,6 +128,7 @@ fn replay(path: &str) -> i32 {
         "C02" => c02::replay(r),
         "C03" => c03::replay(r),
         "C04" => c04::replay(r),
+        "C05" => c05::replay(r),
         "C06" => c06::replay(r),
         "C07" => c07::replay(r),
         "C08" => c08::replay(r),
